@@ -286,6 +286,38 @@ def get (r : Ring) (off take : Nat) : Res Msg :=
       let c ← Mem.rd r.store 0 (take - low)
       pure ⟨a, [c]⟩
 
+/-- `mpt_dispatch_hash(disp, ev)` up to the handler lookup (after fix 8c79496): header read, command word
+    via `mpt_message_argv`, hashed in place when it lies in the current fragment (`msg.used >= len`),
+    else copied out with `mpt_message_read` (no length limit any more) -/
+def dhash (m : Msg) : Res (Option UInt64) :=
+  let h := m.read 2
+  if h.total < 2 then .ok none else
+  let ty := h.out.headD 0
+  let arg := (h.out.drop 1).headD 0
+  let sep : Byte := if ty == 4 then arg else 0
+  match h.msg.argv sep with
+  | (m1, .ok len) =>
+    if len = 0 then .ok none
+    else
+      let word := if m1.base.length ≥ len then m1.base.take len else (m1.read len).out
+      .ok (some (Flat.hash (if sep == 0 && word.getLast? == some 0 then word.dropLast else word)))
+  | (_, .err _) => .ok none
+  | (_, .null) => .null
+  | (_, .oob) => .oob
+  | (_, .fault) => .fault
+
+/-- `mpt_stream_append(stream, msg)` (mptio/stream/stream_append.c after fix 7541cab) and the closing
+    `mpt_stream_push(stream, 0, 0)`: every non-empty part is pushed, a push of length 0 would end the
+    message; `cur` = bytes of the message under construction, `done` = messages finished so far -/
+def sappendLoop : List Frag → List Byte → List (List Byte) → Nat → Nat × List Byte × List (List Byte)
+  | [], cur, done, total => (total, cur, done)
+  | f :: fs, cur, done, total =>
+    if f.length ≠ 0 then sappendLoop fs (cur ++ f) done (total + f.length)
+    else sappendLoop fs cur done total
+def sappend (m : Msg) : Nat × List (List Byte) :=
+  let r := sappendLoop (m.base :: m.cont) [] [] 0
+  (r.1, r.2.2 ++ [r.2.1])
+
 /-- `mpt_message_get` with `vec = NULL`: a stretch that needs a second fragment is refused (−3) -/
 def getNoVec (r : Ring) (off take : Nat) : Res Msg :=
   match get r off take with
